@@ -1,2 +1,7 @@
-import FpgoVerif.Model.C10
-/-! Property theorems for C10 (none yet). -/
+import FpgoVerif.Proofs.C10Inv
+/-! Property theorems for C10 (work in progress). -/
+namespace FpgoVerif.C10
+
+theorem C10_inv (grow : Nat → Nat) {s : State} (r : Reach grow s) : Inv s := Inv_reach grow r
+
+end FpgoVerif.C10
